@@ -315,3 +315,251 @@ theorem roundMagF32_overflow_iff (M : Nat) :
             · split <;> omega
         omega
       · omega
+
+/-! ## widening is exact, and narrowing undoes it -/
+
+theorem log2_mul_two_pow (a k : Nat) (ha : a ≠ 0) : (a * 2 ^ k).log2 = a.log2 + k := by
+  have hp : 0 < 2 ^ k := Nat.two_pow_pos _
+  have hne : a * 2 ^ k ≠ 0 := Nat.mul_ne_zero ha (by omega)
+  rw [Nat.log2_eq_iff hne]
+  constructor
+  · rw [Nat.pow_add]; exact Nat.mul_le_mul_right _ (Nat.log2_self_le ha)
+  · have : 2 ^ (a.log2 + k + 1) = 2 ^ (a.log2 + 1) * 2 ^ k := by
+      rw [← Nat.pow_add]; congr 1; omega
+    rw [this]
+    exact Nat.mul_lt_mul_of_lt_of_le (@Nat.lt_log2_self a) (Nat.le_refl _) hp
+
+theorem roundMagF32_exact_sub (F : Nat) (hF : F < 2 ^ 23) : roundMagF32 (F * 2 ^ 925) = F := by
+  by_cases hF0 : F = 0
+  · subst hF0; simp [roundMagF32]
+  have hne : F * 2 ^ 925 ≠ 0 := Nat.mul_ne_zero hF0 (by have := Nat.two_pow_pos 925; omega)
+  have hl : F.log2 < 23 := (Nat.log2_lt hF0).mpr hF
+  have hq : f32Quantum (F * 2 ^ 925) = 925 := by
+    unfold f32Quantum
+    rw [log2_mul_two_pow _ _ hF0]
+    exact Nat.max_eq_right (by omega)
+  unfold roundMagF32
+  rw [if_neg hne]
+  simp only [hq, rneNat_mul _ _ (Nat.two_pow_pos 925)]
+  omega
+
+theorem roundMagF32_exact_norm (E F : Nat) (hE0 : E ≠ 0) (hF : F < 2 ^ 23) :
+    roundMagF32 ((2 ^ 23 + F) * 2 ^ (E - 1) * 2 ^ 925) = E * 2 ^ 23 + F := by
+  have hs : 2 ^ 23 + F ≠ 0 := by have := Nat.two_pow_pos 23; omega
+  have hl : (2 ^ 23 + F).log2 = 23 := by
+    rw [Nat.log2_eq_iff hs]
+    rw [two_pow_23] at hF ⊢
+    rw [two_pow_24]; omega
+  have hval : (2 ^ 23 + F) * 2 ^ (E - 1) * 2 ^ 925 = (2 ^ 23 + F) * 2 ^ (E - 1 + 925) := by
+    rw [Nat.mul_assoc, ← Nat.pow_add]
+  rw [hval]
+  have hne : (2 ^ 23 + F) * 2 ^ (E - 1 + 925) ≠ 0 :=
+    Nat.mul_ne_zero hs (by have := Nat.two_pow_pos (E - 1 + 925); omega)
+  have hq : f32Quantum ((2 ^ 23 + F) * 2 ^ (E - 1 + 925)) = E - 1 + 925 := by
+    unfold f32Quantum
+    rw [log2_mul_two_pow _ _ hs, hl]
+    have : 23 + (E - 1 + 925) - 23 = E - 1 + 925 := by omega
+    rw [this]
+    exact Nat.max_eq_left (by omega)
+  unfold roundMagF32
+  rw [if_neg hne]
+  simp only [hq, rneNat_mul _ _ (Nat.two_pow_pos _)]
+  have h4 : E - 1 + 925 - 925 = E - 1 := by omega
+  rw [h4, two_pow_23]
+  clear hval hne hq hl hs
+  omega
+
+/-- rounding a value that already is a binary32 gives that binary32 back -/
+theorem roundMagF32_exact (m : Nat) (_hf : m / 2 ^ 23 < 255) :
+    roundMagF32 (f32Mag m * 2 ^ 925) = m := by
+  have hdm := Nat.div_add_mod m (2 ^ 23)
+  have hF : m % 2 ^ 23 < 2 ^ 23 := Nat.mod_lt _ (Nat.two_pow_pos _)
+  unfold f32Mag
+  simp only
+  by_cases hE : m / 2 ^ 23 = 0
+  · rw [if_pos hE, roundMagF32_exact_sub _ hF]
+    rw [hE] at hdm; omega
+  · rw [if_neg hE, roundMagF32_exact_norm _ _ hE hF]
+    rw [Nat.mul_comm] at hdm; exact hdm
+
+theorem widen_sub (s F x : Nat) (hs : s ≤ 1) (hF0 : F ≠ 0) (hF : F < 2 ^ 23)
+    (hx : x = s * 2 ^ 63 + (F.log2 + 874) * 2 ^ 52 + (F * 2 ^ (52 - F.log2) - 2 ^ 52)) :
+    x / 2 ^ 63 = s ∧ x < 2 ^ 64 ∧ x % 2 ^ 63 / 2 ^ 52 ≠ 2047 ∧ f64Mag (x % 2 ^ 63) = F * 2 ^ 925 := by
+  have hl : F.log2 < 23 := (Nat.log2_lt hF0).mpr hF
+  have hlo := Nat.log2_self_le hF0
+  have hhi := @Nat.lt_log2_self F
+  have a1 : 2 ^ 52 ≤ F * 2 ^ (52 - F.log2) := by
+    have : 2 ^ 52 = 2 ^ F.log2 * 2 ^ (52 - F.log2) := by
+      rw [← Nat.pow_add]; congr 1; omega
+    rw [this]; exact Nat.mul_le_mul_right _ hlo
+  have a2 : F * 2 ^ (52 - F.log2) < 2 ^ 53 := by
+    have : 2 ^ 53 = 2 ^ (F.log2 + 1) * 2 ^ (52 - F.log2) := by
+      rw [← Nat.pow_add]; congr 1; omega
+    rw [this]
+    exact Nat.mul_lt_mul_of_lt_of_le hhi (Nat.le_refl _) (Nat.two_pow_pos _)
+  have d5 : 52 - F.log2 + (F.log2 + 874 - 1) = 925 := by omega
+  have d3 : F.log2 + 874 ≠ 0 := by omega
+  clear hlo hhi
+  generalize hfr : F * 2 ^ (52 - F.log2) = sig at a1 a2 hx
+  generalize F.log2 = l at *
+  have d4 : 2 ^ 52 + (sig - 2 ^ 52) = sig := by omega
+  have m1 : x % 2 ^ 63 = (l + 874) * 2 ^ 52 + (sig - 2 ^ 52) := by omega
+  have d1 : ((l + 874) * 2 ^ 52 + (sig - 2 ^ 52)) / 2 ^ 52 = l + 874 := by omega
+  have d2 : ((l + 874) * 2 ^ 52 + (sig - 2 ^ 52)) % 2 ^ 52 = sig - 2 ^ 52 := by omega
+  refine ⟨by omega, by omega, by omega, ?_⟩
+  rw [m1]
+  unfold f64Mag
+  simp only
+  rw [d1, d2, if_neg d3, d4, ← hfr, Nat.mul_assoc, ← Nat.pow_add, d5]
+
+theorem widen_norm (s E F x : Nat) (hs : s ≤ 1) (hE0 : E ≠ 0) (hE : E < 255) (hF : F < 2 ^ 23)
+    (hx : x = s * 2 ^ 63 + (E + 896) * 2 ^ 52 + F * 2 ^ 29) :
+    x / 2 ^ 63 = s ∧ x < 2 ^ 64 ∧ x % 2 ^ 63 / 2 ^ 52 ≠ 2047 ∧
+      f64Mag (x % 2 ^ 63) = (2 ^ 23 + F) * 2 ^ (E - 1) * 2 ^ 925 := by
+  have d3 : E + 896 ≠ 0 := by omega
+  have d4 : 2 ^ 52 + F * 2 ^ 29 = (2 ^ 23 + F) * 2 ^ 29 := by omega
+  have d5 : 29 + (E + 896 - 1) = E - 1 + 925 := by omega
+  have m1 : x % 2 ^ 63 = (E + 896) * 2 ^ 52 + F * 2 ^ 29 := by omega
+  have d1 : ((E + 896) * 2 ^ 52 + F * 2 ^ 29) / 2 ^ 52 = E + 896 := by omega
+  have d2 : ((E + 896) * 2 ^ 52 + F * 2 ^ 29) % 2 ^ 52 = F * 2 ^ 29 := by omega
+  refine ⟨by omega, by omega, by omega, ?_⟩
+  rw [m1]
+  unfold f64Mag
+  simp only
+  rw [d1, d2, if_neg d3, d4, Nat.mul_assoc, Nat.mul_assoc, ← Nat.pow_add, ← Nat.pow_add, d5]
+
+/-- the widened pattern of a finite binary32: same sign, finite, same value -/
+theorem widenF32_finite (r : Nat) (hr : r < 2 ^ 32) (hf : r % 2 ^ 31 / 2 ^ 23 ≠ 255) :
+    widenF32 r / 2 ^ 63 = r / 2 ^ 31 ∧ widenF32 r < 2 ^ 64 ∧
+    widenF32 r % 2 ^ 63 / 2 ^ 52 ≠ 2047 ∧
+    f64Mag (widenF32 r % 2 ^ 63) = f32Mag (r % 2 ^ 31) * 2 ^ 925 := by
+  have hs : r / 2 ^ 31 ≤ 1 := by omega
+  have hE : r % 2 ^ 31 / 2 ^ 23 < 255 := by omega
+  have hF : r % 2 ^ 31 % 2 ^ 23 < 2 ^ 23 := Nat.mod_lt _ (Nat.two_pow_pos _)
+  unfold widenF32 f32Mag
+  simp only
+  generalize r / 2 ^ 31 = s at *
+  generalize r % 2 ^ 31 / 2 ^ 23 = E at *
+  generalize r % 2 ^ 31 % 2 ^ 23 = F at *
+  rw [if_neg hf]
+  by_cases hE0 : E = 0
+  · simp only [if_pos hE0]
+    by_cases hF0 : F = 0
+    · rw [if_pos hF0]
+      subst hF0
+      have h1 : s * 2 ^ 63 % 2 ^ 63 = 0 := by omega
+      refine ⟨by omega, by omega, by omega, ?_⟩
+      rw [h1]; simp [f64Mag]
+    · rw [if_neg hF0]
+      exact widen_sub s F _ hs hF0 hF rfl
+  · simp only [if_neg hE0]
+    exact widen_norm s E F _ hs hE0 hE hF rfl
+
+theorem cast_inf (s : Nat) (_hs : s ≤ 1) :
+    castF32 (s * 2 ^ 63 + f64InfPat + 0) = s * 2 ^ 31 + f32InfPat := by
+  simp only [f32InfPat, f64InfPat]
+  unfold castF32
+  simp only [f32InfPat]
+  have a : (s * 2 ^ 63 + 9218868437227405312 + 0) % 2 ^ 63 / 2 ^ 52 = 2047 := by omega
+  have b : (s * 2 ^ 63 + 9218868437227405312 + 0) % 2 ^ 63 % 2 ^ 52 = 0 := by omega
+  have c : (s * 2 ^ 63 + 9218868437227405312 + 0) / 2 ^ 63 = s := by omega
+  rw [a, b, c]; simp only [if_true]
+
+theorem cast_qnan (s F : Nat) (_hs : s ≤ 1) (hF : F < 2 ^ 23) (hge : 2 ^ 22 ≤ F) :
+    castF32 (s * 2 ^ 63 + f64InfPat + (2 ^ 51 + F % 2 ^ 22 * 2 ^ 29)) = s * 2 ^ 31 + f32InfPat + F := by
+  simp only [f32InfPat, f64InfPat]
+  unfold castF32
+  simp only [f32InfPat]
+  have a : (s * 2 ^ 63 + 9218868437227405312 + (2 ^ 51 + F % 2 ^ 22 * 2 ^ 29)) % 2 ^ 63
+      / 2 ^ 52 = 2047 := by omega
+  have b : (s * 2 ^ 63 + 9218868437227405312 + (2 ^ 51 + F % 2 ^ 22 * 2 ^ 29)) % 2 ^ 63
+      % 2 ^ 52 = 2 ^ 51 + F % 2 ^ 22 * 2 ^ 29 := by omega
+  have c : (s * 2 ^ 63 + 9218868437227405312 + (2 ^ 51 + F % 2 ^ 22 * 2 ^ 29)) / 2 ^ 63
+      = s := by omega
+  rw [a, b, c]
+  have d : 2 ^ 51 + F % 2 ^ 22 * 2 ^ 29 ≠ 0 := by omega
+  simp only [if_true, if_neg d]
+  omega
+
+/-- narrowing after widening is the identity on every binary32 pattern that is not a signalling NaN -/
+theorem castF32_widenF32 (r : Nat) (hr : r < 2 ^ 32)
+    (hq : r % 2 ^ 31 / 2 ^ 23 = 255 → r % 2 ^ 23 = 0 ∨ 2 ^ 22 ≤ r % 2 ^ 23) :
+    castF32 (widenF32 r) = r := by
+  have hs : r / 2 ^ 31 ≤ 1 := by omega
+  by_cases hf : r % 2 ^ 31 / 2 ^ 23 = 255
+  · have hq' := hq hf
+    have hmm : r % 2 ^ 31 % 2 ^ 23 = r % 2 ^ 23 := by omega
+    have hF : r % 2 ^ 23 < 2 ^ 23 := Nat.mod_lt _ (Nat.two_pow_pos _)
+    unfold widenF32
+    simp only [hf, if_true, hmm]
+    by_cases hF0 : r % 2 ^ 23 = 0
+    · rw [if_pos hF0, cast_inf _ hs]
+      unfold f32InfPat; omega
+    · rw [if_neg hF0, cast_qnan _ _ hs hF (by omega)]
+      unfold f32InfPat; omega
+  · obtain ⟨w1, w2, w3, w4⟩ := widenF32_finite r hr hf
+    have hE : r % 2 ^ 31 / 2 ^ 23 < 255 := by omega
+    unfold castF32
+    simp only
+    rw [if_neg w3, w1, w4, roundMagF32_exact _ hE]
+    have : min (r % 2 ^ 31) f32InfPat = r % 2 ^ 31 := by
+      apply Nat.min_eq_left
+      unfold f32InfPat; omega
+    rw [this]; omega
+
+/-! ## the byte layer under `Float` / `Double` -/
+
+theorem pack_nat (cc : CustomCodec) (t : IntT) (ht : t.signed = false) (y : Nat)
+    (hy : y < 256 ^ t.width) (rest : Bytes) :
+    ∃ bs, encode cc (.int t) (.int (y : Int)) = .ok bs ∧ bs.length = t.width ∧ beValue bs = y ∧
+      decode cc (.int t) (bs ++ rest) = .ok (.int (y : Int), rest) := by
+  have hd : t.inDom (y : Int) := by
+    unfold IntT.inDom
+    rw [if_neg (by simp [ht])]
+    refine ⟨Int.natCast_nonneg _, ?_⟩
+    rw [← pow256_cast]; exact Int.ofNat_lt.mpr hy
+  obtain ⟨bs, h1, h2, h3⟩ := t.unpack_pack _ hd
+  obtain ⟨bs', h1', _, h3'⟩ := t.pack_spec _ hd
+  rw [h1] at h1'; cases h1'
+  refine ⟨bs, h1, h2, ?_, by rw [decode, h3]; rfl⟩
+  rw [← pow256_cast] at h3'
+  have : ((beValue bs : Nat) : Int) = ((y % 256 ^ t.width : Nat) : Int) := by
+    rw [h3']; exact (Int.natCast_emod _ _).symm
+  have := Int.ofNat_inj.mp this
+  rw [this, Nat.mod_eq_of_lt hy]
+
+theorem pack_f32 (cc : CustomCodec) (y : Nat) (hy : y < 2 ^ 32) (rest : Bytes) :
+    ∃ bs, encode cc (.int .f32) (.int (y : Int)) = .ok bs ∧ bs.length = 4 ∧ beValue bs = y ∧
+      decode cc (.int .f32) (bs ++ rest) = .ok (.int (y : Int), rest) :=
+  pack_nat cc .f32 rfl y (by simpa [IntT.width] using hy) rest
+
+theorem pack_f64 (cc : CustomCodec) (x : Nat) (hx : x < 2 ^ 64) (rest : Bytes) :
+    ∃ bs, encode cc (.int .f64) (.int (x : Int)) = .ok bs ∧ bs.length = 8 ∧ beValue bs = x ∧
+      decode cc (.int .f64) (bs ++ rest) = .ok (.int (x : Int), rest) :=
+  pack_nat cc .f64 rfl x (by simpa [IntT.width] using hx) rest
+
+/-- decoding any `width` bytes of an unsigned code yields their big-endian value -/
+theorem unpack_nat (cc : CustomCodec) (t : IntT) (ht : t.signed = false) (bs rest : Bytes)
+    (hb : bs.length = t.width) :
+    decode cc (.int t) (bs ++ rest) = .ok (.int (beValue bs : Int), rest) := by
+  simp only [decode, IntT.unpack, ht, Bool.false_eq_true, if_false, unpackU, takeN_append' _ bs rest hb]
+  rfl
+
+theorem castF32_finite (x : Nat) (hf : x % 2 ^ 63 / 2 ^ 52 ≠ 2047) :
+    castF32 x = x / 2 ^ 63 * 2 ^ 31 + min (roundMagF32 (f64Mag (x % 2 ^ 63))) f32InfPat := by
+  unfold castF32
+  simp only [if_neg hf]
+
+theorem castF32_lt (x : Nat) (hx : x < 2 ^ 64) : castF32 x < 2 ^ 32 := by
+  have hs : x / 2 ^ 63 ≤ 1 := by omega
+  unfold castF32
+  simp only [f32InfPat]
+  split
+  · split
+    · omega
+    · have : x % 2 ^ 63 % 2 ^ 52 / 2 ^ 29 % 2 ^ 22 < 2 ^ 22 := Nat.mod_lt _ (Nat.two_pow_pos _)
+      omega
+  · have := Nat.min_le_right (roundMagF32 (f64Mag (x % 2 ^ 63))) 2139095040
+    omega
+
+end PyCraft.C02X
